@@ -127,3 +127,44 @@ pub mod pathm {
     }
 }
 
+
+
+// ---------------------------------------------------------------------------------------------
+// Byte-wise models of `str::find(&str)` / `str::contains(&str)` (session 3). std runs the two-way
+// string searcher (critical factorisation, period, byteset): on a 20-byte haystack that CBMC does
+// not know to be constant this does not finish. The model is the naive search with the documented
+// result: byte offset of the first match, None if there is none; an empty needle matches at 0.
+pub mod strm {
+    pub fn find(h: &[u8], n: &[u8]) -> Option<usize> {
+        if n.len() > h.len() {
+            return None;
+        }
+        let mut i = 0;
+        while i + n.len() <= h.len() {
+            let mut j = 0;
+            let mut eq = true;
+            while j < n.len() {
+                if h[i + j] != n[j] {
+                    eq = false;
+                    break;
+                }
+                j += 1;
+            }
+            if eq {
+                return Some(i);
+            }
+            i += 1;
+        }
+        None
+    }
+    pub fn is_ascii(b: &[u8]) -> bool {
+        let mut i = 0;
+        while i < b.len() {
+            if b[i] >= 0x80 {
+                return false;
+            }
+            i += 1;
+        }
+        true
+    }
+}
